@@ -1057,7 +1057,14 @@ pub fn run(op: &str, a: &[&str]) -> Option<String> {
         [n, h] => (hex(h)?, Some(num::<u16>(n)?)),
         _ => return None,
     };
-    let b: &[u8] = &data;
+    // every decoding door runs on two guard-page placements of the input (C01)
+    if op.starts_with("impl.dec.read_") {
+        return crate::guard::both_placements(&data, |b| crate::rd::run_on(op, et, b));
+    }
+    crate::guard::both_placements(&data, |b| run_on(op, et, b))
+}
+
+fn run_on(op: &str, et: Option<u16>, b: &[u8]) -> Option<String> {
     Some(match (op, et) {
         ("dec.sp_eth", None) => match SlicedPacket::from_ethernet(b) {
             Ok(p) => sliced(b, &p),
